@@ -24,7 +24,7 @@ ASSUMPTIONS = [
     "a deviation is tolerated only if a step model of the current rollback algorithm predicts exactly the observed exception and post-state AND tags it with one of the four open findings KF-C03-1..4; everything else is a violation",
 ]
 KF = {"R1": "KF-C03-1", "R2": "KF-C03-2", "R3": "KF-C03-3", "R1-nested": "KF-C03-3", "R4": "KF-C03-4"}
-CLASS_SPECS = ["HNM", "HLM", "HNode", "HDictLM", ["HNode", "HAnyNode", "HSymlink", "HNM"], ["HLM", "HDictLM"]]
+CLASS_SPECS = ["HNM", "HLM", "HNode", "HDictLM", ["HNode", "HAnyNode", "HSymlink", "HNM"], ["HLM", "HDictLM"], "HSlotStoreNM", "HSideNM"]
 
 
 def in_scope(step, family):
